@@ -51,6 +51,8 @@ var hostile = map[string]string{
 	// values that start and end with the same quote character but are not a quoted literal
 	// parentheses (planners tell names from expressions by looking for them)
 	"paren": "a (b", "parensemi": "n; (d", "parenclose": "a) b", "parens": "f(a, b)",
+	// a quote character as the very first / very last character
+	"btstart": "`; x", "dqstart": `"; x`, "sqstart": "'; x", "btend": "x `", "dqend": `x "`,
 	"sqwrap": "'it's; x'", "dqwrap": `"a";"b"`, "sqpair": "'a';'b'",
 }
 
@@ -544,7 +546,7 @@ func rootCause(cs Case) string {
 	has := func(sub string) func(string) bool { return func(x string) bool { return strings.Contains(x, sub) } }
 	btName := false
 	for _, f := range cs.Feats {
-		if f.Name == "bt" && (f.Place == "table-name" || f.Place == "column-name") {
+		if strings.Contains(hostile[f.Name], "`") && (f.Place == "table-name" || f.Place == "column-name") {
 			btName = true
 		}
 	}
